@@ -510,6 +510,9 @@ func fnKey(fn *ssa.Function) string {
 
 func callSSA(caller *frame, callpos token.Pos, fn *ssa.Function, args []value, env []value) value {
 	g := E.curG
+	if m := stubRedirect(fn); m != nil { // verifStubFunc (intrinsics_c20.go): harness-provided Go model
+		fn = m
+	}
 	fr := &frame{g: g, caller: caller, fn: fn}
 	name := fnKey(fn)
 	if fn.Parent() == nil {
